@@ -56,18 +56,16 @@ Record complete (r : rawdir) (d : dataset) : Prop := {
   co_traj : forall raw, r_traj r = Some raw ->
               exists rows, d_traj d = Some rows /\
                 forall p, In p rows <-> In p raw /\ (In (snd p) (sensor_ids d) \/ In (snd p) (rig_ids d));
-  (* records of each kind: sound; every resolving row has its key loaded; the last resolving row of a key is
-     loaded itself; keys are unique — or the GNSS special case: no GNSS sensor, then no row can resolve *)
+  (* records of each kind (all nine alike): the part is present; sound; every resolving row has its key loaded;
+     the last resolving row of a key is loaded itself; keys are unique *)
   co_records : forall k raw, r_records r k = Some raw ->
-    (exists rows, d_records d k = Some rows /\
+    exists rows, d_records d k = Some rows /\
        (forall row, In row rows -> In row raw /\ resolves (d_sensors d) k row) /\
        (forall row, In row raw -> resolves (d_sensors d) k row ->
           exists row', In row' rows /\ rkey k row' = rkey k row /\ resolves (d_sensors d) k row') /\
        (forall l1 row l2, raw = l1 ++ row :: l2 -> resolves (d_sensors d) k row ->
           (forall y, In y l2 -> resolves (d_sensors d) k y -> rkey k y <> rkey k row) -> In row rows) /\
-       NoDup (map (rkey k) rows))
-    \/ (k = RGnss /\ d_records d k = None /\ (forall s, In s (d_sensors d) -> snd s <> "gnss") /\
-        forall row, ~ resolves (d_sensors d) k row);
+       NoDup (map (rkey k) rows);
   (* a file that does not exist gives an absent part *)
   co_absent : (r_rigs r = None -> d_rigs d = None) /\ (r_traj r = None -> d_traj d = None) /\
               (forall k, r_records r k = None -> d_records d k = None);
